@@ -285,7 +285,7 @@ def check_C01(ctx):
             pass
     b = Batch()
     meta = []
-    for e, p in sensitive_parameter_cases():
+    for e, p in sensitive_parameter_cases() + gen.large_cases(rng, sizes(tier, 25, 300)):
         i = b.add('EVAL %s %s' % (sx.point_sx(p), sx.to_sx(e)))
         meta.append((i, e, p, 'EVAL'))
     for e in exprs:
@@ -478,7 +478,7 @@ def check_C02(ctx):
                 p = [(2, bv_), (3, ev)]
                 i = b.add('EVAL %s %s' % (sx.point_sx(p), sx.to_sx(e_)))
                 meta.append((i, e_))
-    for e_, p in sensitive_parameter_cases():
+    for e_, p in sensitive_parameter_cases() + gen.large_cases(rng, sizes(tier, 30, 300)):
         i = b.add('EVAL %s %s' % (sx.point_sx(p), sx.to_sx(e_)))
         meta.append((i, e_))
     n = sizes(tier, 300, 8000)
@@ -583,6 +583,10 @@ def bundle_cases(rng, tier, quick, thorough, special=None):
                 cases.append((e2, p2, v2))
             else:
                 cases.append((e, p, v))
+    # large inputs: wide sums and products (also at a root of one factor), towers of odd roots, long chains
+    for e, p in gen.large_cases(rng, max(10, n // 40), max_arity=17):
+        ids = sx.var_ids(e)
+        cases.append((e, p, rng.choice(ids) if ids else 2))
     return cases
 
 
@@ -955,6 +959,10 @@ def check_C05(ctx):
     # unequal expressions with equal hashes, differentiated one after the other in the same process
     for e_, t_ in gen.hash_collision_pairs(rng, [2, 3], sizes(tier, 25, 300)):
         exprs += [e_, t_]
+    own_points = {}
+    for e_, p_ in gen.large_cases(rng, sizes(tier, 14, 150), max_arity=13, chains=False):
+        exprs.append(e_)
+        own_points.setdefault(sx.to_sx(e_), []).append(p_)
     w = ('V', 4)
     exprs += [('Mul', [('Neg', ('V', 2)), ('Neg', ('V', 3)), ('Neg', ('Sin', ('V', 2))), w]),
               ('Mul', [('Neg', ('V', 2)), ('Neg', ('V', 3)), ('Neg', w), ('Neg', ('Cos', w)), ('Neg', ('C', 2))]),
@@ -973,7 +981,7 @@ def check_C05(ctx):
             # the same questions with every integer parameter n spelled as an integral float (NthRoot(u, 3.0))
             idx['NFPEXPR'] = b.add('NF PEXPR %d %s' % (v, es))
             idx['NFDEXPR'] = b.add('NF DEXPR %d %s' % (v, es))
-        pts = points_for(rng, e, 2)
+        pts = points_for(rng, e, 2) + own_points.get(es, [])[:3]
         idx['PTS'] = [(p, b.add('EVAL %s %s' % (sx.point_sx(p), es)), b.add('FWD %d %s %s' % (v, sx.point_sx(p), es)),
                        b.add('PEARLY %d %s %s' % (v, sx.point_sx(p), es)), b.add('DEARLYAT %d %s %s' % (v, sx.point_sx(p), es)))
                       for p in pts]
@@ -1098,6 +1106,7 @@ def check_C08(ctx):
     exprs += expr_pool(rng, sizes(tier, 250, 5000), max_size=14, with_patterns=False)
     exprs += folded_constant_cases(rng, sizes(tier, 40, 600))
     exprs += gen.repairable_singular(rng, [2, 3], sizes(tier, 60, 800))
+    exprs += [e_ for e_, _p in gen.large_cases(rng, sizes(tier, 10, 120), max_arity=13)]
     # inverse pairs whose parameters are almost, but not exactly, the same (a tolerant comparison cancels them):
     # bases next to one another and next to 1, where the exponent ln b2 / ln b1 is far from 1
     for b1, b2 in ((1 + 1e-9, 1 + 1.5e-9), (1 + 1e-10, 1 + 3e-10), (2.0, math.nextafter(2.0, 3)), (E, math.nextafter(E, 3)),
